@@ -13,7 +13,7 @@ from . import spaces
 ID = "C19"
 
 ENTRY_POINTS = ["solver", "from_permeate", "permeate_composition", "separation_factor", "ideal_curve", "nonideal_curve",
-                "ideal_iso", "ideal_noniso", "nonideal_iso", "nonideal_noniso", "pure_flux", "curve_from_fluxes"]
+                "ideal_iso", "ideal_noniso", "nonideal_iso", "nonideal_noniso", "pure_flux", "curve_from_fluxes", "curve_from_csv"]
 MODEL_ENTRY_POINTS = ["solver", "from_permeate", "permeate_composition", "separation_factor", "ideal_curve", "nonideal_curve",
                       "ideal_iso", "ideal_noniso", "nonideal_iso", "nonideal_noniso", "partial_pressures"]
 
@@ -59,6 +59,26 @@ def invoke(ep, mix, model, x, t, tp, pp, steps=2):
     if ep == "curve_from_fluxes":
         return core.call(U.DiffusionCurve, mixture=mix, membrane_name="M", feed_temperature=t, feed_compositions=[comp],
                          partial_fluxes=[(0.012, 0.0007)], permeate_temperature=tp, permeate_pressure=pp)
+    if ep == "curve_from_csv":
+        # the tabular route: a flux-only curve whose table fills both permeate columns (built-in mixtures only: load looks them up by name)
+        import tempfile, shutil, pathlib
+        if getattr(U.Mixtures, mix.name, None) is not mix:
+            return "skip", None
+        d_ = tempfile.mkdtemp(prefix="c19_", dir="/dev/shm" if pathlib.Path("/dev/shm").is_dir() else None)
+        try:
+            path = pathlib.Path(d_) / "set.csv"
+            cols = U.pyvaporation.diffusion_curve.diffusion_curve.DC_SET_COLUMNS
+            row = {"curve_id": "1", "membrane_name": "M", "mixture": mix.name, "feed_temperature": t, "permeate_temperature": "" if tp is None else tp,
+                   "permeate_pressure": "" if pp is None else pp, "composition": x, "composition_type": "weight", "partial_flux_1": 0.012, "partial_flux_2": 0.0007,
+                   "permeance_1": "", "permeance_2": "", "units": "", "comment": "c"}
+            with open(path, "w") as f_:
+                f_.write(",".join(cols) + "\n")
+                for dx in (0.0, 0.05):
+                    r_ = dict(row, composition=min(x + dx, 0.99))
+                    f_.write(",".join(str(r_[c_]) for c_ in cols) + "\n")
+            return core.call(U.DiffusionCurveSet.load, path)
+        finally:
+            shutil.rmtree(d_, ignore_errors=True)
     if ep == "curve_from_permeances":  # negative control: not in the statement, must not be demanded
         return core.call(U.DiffusionCurve, mixture=mix, membrane_name="M", feed_temperature=t, feed_compositions=[comp],
                          permeances=[(p1, p2)], permeate_temperature=tp, permeate_pressure=pp)
@@ -84,6 +104,8 @@ def judge_modes(case):
     pp = case.get("pp_value", 0.1) if case["pp"] else None  # includes a permeate pressure of exactly 0 / 0.0: "specified" is not "truthy"
     st, r = invoke(case["ep"], mix, case["model"], case["x"], t, tp, pp)
     v = []
+    if st == "skip":
+        return core.result("not-applicable", nontrivial=False)
     if case["tp"] and case["pp"]:
         if case["ep"] == "curve_from_permeances":
             return core.result("control:" + st, nontrivial=False)
@@ -151,6 +173,14 @@ def judge_misc(case):
                           feed_compositions=[U.Composition(p=case["x"], type="weight")], **case.get("kw", {}))
         if st == "ok":
             v.append(core.viol("C19/curve_without_data_accepted", "a DiffusionCurve with neither fluxes nor permeances was constructed"))
+    elif kind == "vle_without_constants":
+        UQ = U.pyvaporation.mixtures.uniquac_fitting
+        c1, c2 = getattr(U.Components, case["components"][0]), getattr(U.Components, case["components"][1])
+        pts = UQ.VLEPoints(components=[c1, c2], data=[UQ.VLEPoint(composition=U.Composition(p=xx, type="molar"), pressures=(10.0 + 30 * xx, 40.0 - 25 * xx), temperature=333.15)
+                                                      for xx in (0.1, 0.3, 0.5, 0.7, 0.9)])
+        st, r = core.call(UQ.fit_vle, pts, case["method"])
+        if st == "ok":
+            v.append(core.viol("C19/missing_component_constants_accepted/fit_vle", "fit_vle(method=%r) returns %r for components without UNIQUAC constants" % (case["method"], r)))
     elif kind == "activation_energy":
         n = case["n"]
         comp = mix.first_component
@@ -214,6 +244,9 @@ def main(tier, seed):
                      lambda c: not (c["ep"] in ("partial_pressures", "partial_pressures_default", "activity_default", "curve_from_permeances_default") and c["mode"] != "vac"))
     core.run_space(rep, sp2, judge_model)
     misc = [{"kind": "mixture_without_parameters"}]
+    for comps_ in (("Benzene", "CycloHexane"), ("H2O", "DME"), ("CycloHexane", "EtOH")):
+        for meth in (None, "Powell", "COBYLA"):
+            misc.append({"kind": "vle_without_constants", "components": comps_, "method": meth})
     for t in ts:
         for x in xs:
             misc.append({"kind": "curve_without_data", "T": t, "x": x})
